@@ -162,6 +162,12 @@ func (s *jwtSigner) Hash() []byte {
 		hash.Write([]byte{0})
 	}
 
+	// the key itself: a key store reload may replace the key while keeping its id. Anything
+	// derived from the old key (like cached tokens) must not be used any more then
+	if thumbprint, err := jwk.Thumbprint(crypto.SHA256); err == nil {
+		hash.Write(thumbprint)
+	}
+
 	return hash.Sum(nil)
 }
 
